@@ -87,7 +87,7 @@ pub fn run(rep: &mut Report, tier: &str, seed: u64) {
                 continue;
             }
         };
-        let loaded = Loaded { program: Program { text: text.clone(), header: String::new(), stanzas: vec![text.clone()], globals: vec![], stanza_count: 1, has_fault: false, features: vec![] }, file };
+        let loaded = Loaded { program: Program { text: text.clone(), header: String::new(), stanzas: vec![text.clone()], globals: vec![], stanza_count: 1, has_fault: false, features: vec![], static_fault: None }, file };
         let mi = model_input(&loaded.file, &source.tree, &source.src, &info);
         // supply patterns: product for <= 2 declarations, a diagonal + sampled product beyond
         let n = ds.len();
